@@ -13,6 +13,8 @@ Five kinds of case, all running the real xeofs code:
               plus one accuracy-degrading option that must be *felt* (the option reached the solver).
   model_seed  every model advertising `random_state`: two fits with the same integer seed are bit-identical (d).
   model_frac  POP / cross-set models with fractional n_pca_modes: (a) observed on model.pca*.V.
+  dask_lossy  dask input whose sketch is genuinely lossy (k + oversampling < rank): randomised == exact to the method's
+              accuracy with and without pass-through options, and dask's own default value changes nothing (b, f).
 """
 
 from __future__ import annotations
@@ -40,7 +42,7 @@ RULE = (
     "solvers: {Decomposer,_SVD,SVD} x {numpy,complex,dask} x shape (incl. 501x3) x spectrum x n_modes in 1..min(shape) x "
     "random_state in {0,1,12345}, every solver run twice; kwargs: every class advertising solver_kwargs x solver route x "
     "documented option; model_seed: every class advertising random_state x solver x PCA variant x seed; model_frac: POP, "
-    "CPCCA, MCA x init_rank_reduction x f. A case is non-trivial when the real code returned and every applicable "
+    "CPCCA, MCA x init_rank_reduction x f; dask_lossy: {Decomposer,_SVD,SVD,PCA,EOF} x shape x seed x 3 option sets. A case is non-trivial when the real code returned and every applicable "
     "oracle clause compared non-empty arrays"
 )
 ASSUMPTIONS = [
@@ -50,8 +52,10 @@ ASSUMPTIONS = [
     "the number of precomputed modes is read from the object (n_modes_precompute) and only required to be "
     "floor or ceil of min(shape)*init_rank_reduction, at least 1",
     "a 'cannot be reached' warning is any UserWarning issued from xeofs code whose text does not contain 'too low' (the other documented warning)",
-    "randomised route on dask input (svd_compressed, 4 un-normalised power iterations): clause (b) tolerance is "
-    "max(1e-7, 10 eps (s_1/s_min)^9) and the clause is skipped where that exceeds 1e-2; 1e-7 everywhere else",
+    "mirror-antisymmetric / mirror-duplicated data classes (X[:, j] == -/+ X[:, p-1-j]) are added to the solver cases: their "
+    "modes have |max loading| == |min loading| up to rounding, very often exactly; on an exact tie either sign passes, a zero mode never",
+    "dask_lossy: 60x40 (thorough also 300x120) with spectrum [10,9,8,7,6 | 1.8 flat], n_modes=5, solver options {} / "
+    "{n_oversamples:10} (dask's default) / {n_oversamples:20}: values within 1e-3, subspace sine within 1e-2 of numpy's SVD, {} == {n_oversamples:10}",
     "classes that cannot choose the solver (PCA, POP: their SVD always follows the auto policy) must accept the option of "
     "whichever route auto takes; ExtendedEOF with an inner PCA is not given options under solver='auto' (two decompositions, two routes)",
     "SparsePCA advertises solver_kwargs but runs no SVD solver they could reach: acceptance is judged, reach only tallied",
@@ -69,11 +73,12 @@ IRRS = (0.1, 0.3, 0.5, 1.0)
 EPS_F = 1e-6
 TIE = 1e-9
 TOL_R = 1e-7
-# dask svd_compressed (the randomised route for dask input) runs n_power_iter=4 un-normalised power iterations, which
-# amplify rounding in the weakest sketched direction by (s_1/s_min)^(2*4+1): measured up to 3.6e-3 on U at s_1/s_min = 32, 1e-15 at <= 4.
-# "Within the randomised method's accuracy" is therefore max(1e-7, 10 eps (s_1/s_min)^9) on that route; where that bound
-# exceeds 1e-2 clause (b) is not evaluated (tallied in info.b_skipped).
-DASK_POWER = 9
+# lossy-sketch data class (dask_lossy kind): five leading values, a gap of ratio 0.3, then a flat tail, so that
+# k + n_oversamples < rank and the answer depends on xeofs' own defaults (4 re-orthonormalised power iterations)
+LOSSY_LEAD = (10.0, 9.0, 8.0, 7.0, 6.0)
+LOSSY_TAIL = 1.8
+LOSSY_OPTS = ({}, {"n_oversamples": 10}, {"n_oversamples": 20})
+MIRROR = ("antisym", "symdup")  # X[:, j] == -/+ X[:, p-1-j]: every right singular vector is mirror (anti)symmetric
 
 # ----------------------------------------------------------------------------- model catalogue (by introspection)
 
@@ -187,10 +192,12 @@ def cases(tier, seed):
             else:
                 shp = [(8, 1), (6, 4), (4, 6), (12, 6), (501, 3)] if quick else [(8, 1), (6, 4), (4, 6), (9, 6), (12, 6), (501, 3)]
             for (n, p) in shp:
-                for spec in SPECS:
+                for spec in SPECS + MIRROR:
                     if quick and backend == "dask" and spec in ("flat_pair", "clustered"):
                         continue
                     if p == 1 and spec != "geometric":
+                        continue
+                    if spec in MIRROR and (p % 2 or n > 100):
                         continue
                     for k in range(1, min(n, p) + 1):
                         for rs in SEEDS:
@@ -236,7 +243,12 @@ def cases(tier, seed):
                     if fr == "one" or (quick and nm == "MCA" and spec != "geometric"):
                         continue
                     out.append(dict(kind="model_frac", target=nm, pkg=pkg, backend="numpy", shape=[12, 6], spec=spec, irr=irr, frac=fr, solver="auto"))
-    order = {"threshold": 0, "solvers": 1, "kwargs": 2, "model_seed": 3, "model_frac": 4}
+    # ---------------- lossy sketch on dask input
+    for target in ("Decomposer", "_SVD", "SVD", "PCA", "EOF"):
+        for (n, p) in ([(60, 40)] if quick else [(60, 40), (300, 120)]):
+            for rs in ((0, 12345) if quick else SEEDS):
+                out.append(dict(kind="dask_lossy", target=target, backend="dask", shape=[n, p], spec="lossy_gap", n_modes=len(LOSSY_LEAD), rs=rs, solver="auto" if target == "PCA" else "randomized"))
+    order = {"threshold": 0, "solvers": 1, "kwargs": 2, "model_seed": 3, "model_frac": 4, "dask_lossy": 5}
     out.sort(key=lambda c: order[c["kind"]])  # stable: simplest kind first, enumeration order within
     return out
 
@@ -260,6 +272,28 @@ def _union(backend):
 
 
 DEGRADE = {"numpy": {"n_iter": 0, "n_oversamples": 0}, "dask": {"n_power_iter": 0, "n_oversamples": 0}}
+
+# ----------------------------------------------------------------------------- data classes beyond data.py
+
+
+def _matrix(n, p, spec, cplx, seed):
+    """catalogue matrix (centred); 'antisym' / 'symdup' mirror a geometric n x p/2 block: X = [B, -/+ B[:, ::-1]]"""
+    if spec in MIRROR:
+        B = D.make_matrix(n, p // 2, "geometric", 1.0, cplx, seed, mean=False)
+        return np.concatenate([B, (-1.0 if spec == "antisym" else 1.0) * B[:, ::-1]], axis=1)
+    return D.make_matrix(n, p, spec, 1.0, cplx, seed, mean=False)
+
+
+def _lossy_matrix(n, p, seed):
+    rng = np.random.default_rng([int(seed), n, p, 4242])
+    A = rng.standard_normal((n, p))
+    A -= A.mean(axis=0, keepdims=True)
+    U, _ = np.linalg.qr(A)
+    V, _ = np.linalg.qr(rng.standard_normal((p, p)))
+    sv = np.full(p, LOSSY_TAIL)
+    sv[: len(LOSSY_LEAD)] = LOSSY_LEAD
+    return (U * sv) @ V.T
+
 
 # ----------------------------------------------------------------------------- running the linalg wrappers
 
@@ -421,18 +455,25 @@ def _proj(A):
 
 
 def _sign_check(bad, V, label):
+    """largest-magnitude loading positive, or a tie between a positive and a negative loading (then either sign; a zero
+    mode is caught by the unit-norm clause). Returns the number of modes with an EXACT tie max == -min."""
+    exact = 0
     for j in range(V.shape[1]):
         v = V[:, j].real
         a = np.abs(v)
         i = int(np.argmax(a))
         if a[i] == 0:
-            continue
+            bad("sign_convention", "%s: mode %d is identically zero" % (label, j + 1), constant_mode=False, zero_mode=True)
+            return exact
+        if v.max() == -v.min():
+            exact += 1
         if a.size > 1 and (a[i] - np.sort(a)[-2]) <= 1e-6 * a[i]:
             continue  # two largest magnitudes tie: either sign (DESIGN 4.4)
         if not v[i] > 0:
             # constant_mode: all loadings of the mode are equal (always so with a single feature) -- max == min inside xeofs
-            bad("sign_convention", "%s: mode %d largest-magnitude loading is %.6g (negative)" % (label, j + 1, v[i]), constant_mode=bool(np.ptp(v) <= 1e-12 * a[i]))
-            return
+            bad("sign_convention", "%s: mode %d largest-magnitude loading is %.6g (negative)" % (label, j + 1, v[i]), constant_mode=bool(np.ptp(v) <= 1e-12 * a[i]), zero_mode=False)
+            return exact
+    return exact
 
 
 def _eq(a, b):
@@ -445,7 +486,7 @@ def _eq(a, b):
 def _run_threshold(case, seed):
     n, p = case["shape"]
     backend, target = case["backend"], case["target"]
-    X = D.make_matrix(n, p, case["spec"], 1.0, backend == "complex", seed, mean=False)
+    X = _matrix(n, p, case["spec"], backend == "complex", seed)
     m = min(n, p)
     cum = _ref_cum(X, m)
     f = _frac_value(cum, case["frac"])
@@ -477,7 +518,7 @@ def _run_threshold(case, seed):
 def _run_solvers(case, seed):
     n, p = case["shape"]
     backend, target, k, rs = case["backend"], case["target"], case["n_modes"], case["rs"]
-    X = D.make_matrix(n, p, case["spec"], 1.0, backend == "complex", seed, mean=False)
+    X = _matrix(n, p, case["spec"], backend == "complex", seed)
     V_ = []
     feats = dict(backend=backend)
 
@@ -504,13 +545,8 @@ def _run_solvers(case, seed):
     s_next = sr[k] if k < len(sr) else 0.0
     gap = (sr[k - 1] - s_next) / s0 > 1e-3
     compared = 0
-    tol = TOL_R
-    if backend == "dask":
-        # the sketch holds min(20, min(shape)) columns, i.e. every direction here: the smallest non-zero one sets the loss
-        s_min = sr[sr > 1e-10 * s0].min()
-        tol = max(TOL_R, 10 * np.finfo(float).eps * (s0 / s_min) ** DASK_POWER)
-    b_skipped = bool(gap and tol > 1e-2)
-    gap_b = gap and not b_skipped
+    tol = TOL_R  # every randomised route (sklearn, svds, dask svd_compressed with QR-normalised power iterations)
+    gap_b = gap
     # (d) repeated runs bit-identical
     for solver in ("full", "randomized", "auto"):
         if (solver, 0) in runs and (solver, 1) in runs:
@@ -544,6 +580,22 @@ def _run_solvers(case, seed):
             e = max(np.abs(_proj(a["V"]) - _proj(b["V"])).max(), np.abs(_proj(a["U"]) - _proj(b["U"])).max())
             if not e <= tol:
                 bad("exact_vs_randomized_subspace", "projector difference %.3e" % e)
+    # every mode, gap or not: unit-norm vectors, and U s V^H is a best rank-k approximation (Eckart-Young value)
+    opt = float(np.sum(sr[k:] ** 2))
+    for solver in ("full", "randomized", "auto"):
+        if (solver, 0) not in runs:
+            continue
+        r = runs[(solver, 0)]
+        nv = np.linalg.norm(r["V"], axis=0)
+        nu = np.linalg.norm(r["U"], axis=0)
+        live = sr[:k] > 1e-10 * s0
+        if not (np.abs(nv - 1).max() <= tol) or not (np.abs(nu[live] - 1).max(initial=0.0) <= tol):
+            j = int(np.argmax(np.abs(nv - 1)))
+            bad("unit_norm", "%s: mode %d has |v| = %.6g, |u| = %.6g (expected 1)" % (solver, j + 1, nv[j], nu[j]), solver=solver, zero_mode=bool(nv.min() < 0.5))
+            continue
+        res = float(np.linalg.norm(X - (r["U"] * r["s"]) @ r["V"].conj().T) ** 2)
+        if not abs(res - opt) / s0**2 <= 10 * tol:
+            bad("reconstruction", "%s: |X - U s V^H|^2 = %.6e, best rank-%d value %.6e" % (solver, res, k, opt), solver=solver)
     # (c) auto selects
     auto_is = "refused"
     if ("auto", 0) in runs:
@@ -556,12 +608,13 @@ def _run_solvers(case, seed):
     elif "auto" in refused and "randomized" not in refused:
         bad("auto_selects", "auto refused (%s) although both solvers returned" % refused["auto"])
     # (e) sign convention, real data
+    ties = 0
     if backend != "complex":
         for solver in ("full", "randomized", "auto"):
             if (solver, 0) in runs:
-                _sign_check(lambda c, m_, **kw: bad(c, m_, solver=solver, **kw), runs[(solver, 0)]["V"], solver)
+                ties += _sign_check(lambda c, m_, **kw: bad(c, m_, solver=solver, **kw), runs[(solver, 0)]["V"], solver)
     out = "violation" if V_ else ("ok" if not refused else "ok_partial:" + ",".join(sorted(set(refused.values()))))
-    return dict(violations=V_, outcome=out, nontrivial=not V_ and compared > 0, info=dict(auto_is=auto_is, gap=bool(gap_b), b_skipped=b_skipped, refused=sorted(refused)))
+    return dict(violations=V_, outcome=out, nontrivial=not V_ and compared > 0, info=dict(auto_is=auto_is, gap=bool(gap_b), refused=sorted(refused), exact_ties=int(ties)))
 
 
 # ---- models
@@ -787,8 +840,61 @@ def _run_model_frac(case, seed):
     return dict(violations=V_, outcome="violation" if V_ else "ok", nontrivial=not V_ and count > 0, info=dict(count=int(count), warned=bool(warns)))
 
 
+def _run_dask_lossy(case, seed):
+    import xarray as xr
+
+    n, p = case["shape"]
+    target, k, rs, solver = case["target"], case["n_modes"], case["rs"], case["solver"]
+    X = _lossy_matrix(n, p, seed)
+    Ur, sr, Vhr = np.linalg.svd(X, full_matrices=False)
+    Qr = Vhr[:k].T
+    V_ = []
+
+    def bad(check, msg, **extra):
+        V_.append(viol(check, target, msg, backend="dask", lossy_sketch=True, **extra))
+
+    def run(skw):
+        if target == "EOF":
+            import xeofs as xe
+
+            da = xr.DataArray(X, dims=("time", "x"), coords={"time": np.arange(n), "x": np.arange(p)}).chunk({"time": (n + 2) // 3})
+            m = xe.single.EOF(n_modes=k, solver=solver, random_state=rs, solver_kwargs=dict(skw))
+            m.fit(da, dim="time")
+            return dict(s=np.asarray(m.singular_values().values), V=np.asarray(m.components().transpose("x", "mode").values))
+        r = _fit_linalg(target, X, "dask", k, solver, rs, skw=dict(skw))
+        return dict(s=r["s"], V=r["V"])
+
+    got = []
+    for skw in LOSSY_OPTS:
+        try:
+            r = run(skw)
+        except Exception as e:
+            bad("kwargs_accepted", "solver_kwargs=%s -> %s: %s" % (skw, type(e).__name__, str(e)[:200]), exc=type(e).__name__, at=_where(e))
+            return dict(violations=V_, outcome="violation", nontrivial=False)
+        got.append(r)
+        has_opt = bool(skw)
+        if r["s"] is not None:
+            e = float(np.max(np.abs(r["s"] - sr[:k]) / sr[:k])) if r["s"].shape == (k,) else np.inf
+            if not e <= 1e-3:
+                bad("exact_vs_randomized_values", "solver_kwargs=%s: leading singular values off by %.3e relative (%s vs %s)" % (skw, e, np.round(r["s"], 4), sr[:k]), with_options=has_opt)
+        if r["V"].shape != (p, k):
+            bad("shape", "V has shape %s" % (r["V"].shape,), with_options=has_opt)
+            continue
+        Q, _ = np.linalg.qr(r["V"])
+        sine = float(np.linalg.norm(Q - Qr @ (Qr.T @ Q), 2))
+        if not sine <= 1e-2:
+            bad("exact_vs_randomized_subspace", "solver_kwargs=%s: sine of the largest angle to the exact leading subspace %.3e" % (skw, sine), with_options=has_opt)
+    if len(got) >= 2 and got[0]["V"].shape == got[1]["V"].shape:
+        d = float(np.abs(got[0]["V"] - got[1]["V"]).max())
+        if got[0]["s"] is not None:
+            d = max(d, float(np.abs(got[0]["s"] - got[1]["s"]).max() / sr[0]))
+        if not d <= 1e-9:
+            bad("kwargs_changes_result", "passing n_oversamples=10 (dask's own default) changed the result by %.3e" % d)
+    return dict(violations=V_, outcome="violation" if V_ else "ok", nontrivial=not V_)
+
+
 def run_case(case, seed):
-    return {"threshold": _run_threshold, "solvers": _run_solvers, "kwargs": _run_kwargs, "model_seed": _run_model_seed, "model_frac": _run_model_frac}[case["kind"]](case, seed)
+    return {"dask_lossy": _run_dask_lossy, "threshold": _run_threshold, "solvers": _run_solvers, "kwargs": _run_kwargs, "model_seed": _run_model_seed, "model_frac": _run_model_frac}[case["kind"]](case, seed)
 
 
 # ----------------------------------------------------------------------------- cross-case
@@ -810,7 +916,8 @@ def finalize(cases_, results, tier, seed):
             counts.add(info["count"])
         if c["kind"] == "kwargs" and "felt" in info:
             felt[str(info["felt"])] += 1
-    return [], dict(auto_selected=dict(auto), threshold_warned=dict(warned), threshold_counts_seen=sorted(counts), degrade_option_felt=dict(felt))
+    ties = sum((r.get("info") or {}).get("exact_ties", 0) for r in results)
+    return [], dict(exact_sign_ties=int(ties), auto_selected=dict(auto), threshold_warned=dict(warned), threshold_counts_seen=sorted(counts), degrade_option_felt=dict(felt))
 
 
 def vacuity(outcomes, results, tier):
@@ -837,6 +944,8 @@ def vacuity(outcomes, results, tier):
         return "threshold cases did not see both the reached and the unreachable (warning) outcome: %s" % sorted(warned)
     if len(counts) < 3:
         return "threshold cases kept only %s modes" % sorted(counts)
+    if not any((r.get("info") or {}).get("exact_ties") for r in results):
+        return "no mode with an exact sign tie max == -min was produced by the mirror-antisymmetric data class"
     if felt == 0:
         return "the accuracy-degrading solver option was never felt: the reach clause is vacuous"
     if not any(o.startswith("refused") for o in outcomes):
